@@ -132,7 +132,7 @@ class RefSdoServer:
         data = bytes(data)
         if self.write_hook is not None:
             code = self.write_hook(index, sub, data)
-            if code:
+            if code is not None:
                 self._abort(index, sub, code)
                 return False
         self.store[(index, sub)] = data
@@ -165,6 +165,11 @@ class RefSdoServer:
             return
         if n:
             self._bad("n-set-in-segmented-initiate", d)
+        if self.abort_plan is not None and self.abort_plan[0] == "init":
+            code = self.abort_plan[2]
+            self.abort_plan = None
+            self._abort(index, sub, code)
+            return
         size = None
         if s:
             size = int.from_bytes(d[4:8], "little")
@@ -175,8 +180,23 @@ class RefSdoServer:
                       "toggle": 0, "buf": bytearray()}
         self._send(bytes([0x60, d[1], d[2], sub, 0, 0, 0, 0]))
 
+    abort_plan = None       # (stage, k, code): abort the k-th segment request of the next transfer
+
+    def _planned_abort(self, st):
+        p = self.abort_plan
+        if p is None or p[0] != "seg":
+            return False
+        st["nseg"] = st.get("nseg", 0) + 1
+        if st["nseg"] - 1 == p[1]:
+            self.abort_plan = None
+            self._abort(st["index"], st["sub"], p[2])
+            return True
+        return False
+
     def _seg_download(self, d):
         st = self.state
+        if st is not None and st["k"] == "sd" and self._planned_abort(st):
+            return
         if st is None or st["k"] != "sd":
             self._bad("segment-without-download", d)
             self._abort(0, 0, ABORT_CMD)
@@ -256,6 +276,8 @@ class RefSdoServer:
 
     def _seg_upload(self, d):
         st = self.state
+        if st is not None and st["k"] == "su" and self._planned_abort(st):
+            return
         if st is None or st["k"] != "su":
             self._bad("segment-without-upload", d)
             self._abort(0, 0, ABORT_CMD)
